@@ -301,7 +301,31 @@ fn strip_fn_indices(s: &str) -> String {
 }
 
 /// Run one `quiv` invocation with a 60 s limit. Ok(None) = the limit was hit (inconclusive).
+/// A failure the command line reports itself ("Error: …" on stderr) is returned at once. A silent
+/// non-zero end (`quiv run` exits with status 1 and prints nothing when the result is nil; a
+/// signal looks the same from here) is retried: it counts as a failure only if it happens three
+/// times in a row — it was seen twice in ~4*10^4 invocations on a heavily loaded machine, on
+/// programs that then ran correctly 1000 times each.
 fn quiv(bin: &str, args: &[&str], stdin: Option<&[u8]>) -> Result<Option<(bool, String, String)>, String> {
+    let mut last = String::new();
+    for _attempt in 0..3 {
+        match quiv_once(bin, args, stdin)? {
+            None => return Ok(None),
+            Some((status, out, err)) => {
+                if status.success() {
+                    return Ok(Some((true, out, err)));
+                }
+                if status.code().is_some() && !err.trim().is_empty() {
+                    return Ok(Some((false, out, format!("{status}: {err}"))));
+                }
+                last = format!("{status} with nothing on stderr (a nil result ends `quiv run` that way), three times in a row");
+            }
+        }
+    }
+    Ok(Some((false, String::new(), last)))
+}
+
+fn quiv_once(bin: &str, args: &[&str], stdin: Option<&[u8]>) -> Result<Option<(std::process::ExitStatus, String, String)>, String> {
     use std::io::Write;
     use std::process::{Command, Stdio};
     let mut child = Command::new(bin)
@@ -330,7 +354,7 @@ fn quiv(bin: &str, args: &[&str], stdin: Option<&[u8]>) -> Result<Option<(bool, 
         }
     }
     let out = child.wait_with_output().map_err(|e| format!("output: {e}"))?;
-    Ok(Some((out.status.success(), String::from_utf8_lossy(&out.stdout).trim_end().to_string(), String::from_utf8_lossy(&out.stderr).trim_end().to_string())))
+    Ok(Some((out.status, String::from_utf8_lossy(&out.stdout).trim_end().to_string(), String::from_utf8_lossy(&out.stderr).trim_end().to_string())))
 }
 
 /// The three command-line routes for a program that evaluates to a nilary function; each gives
@@ -342,7 +366,7 @@ pub fn cli_routes(bin: &str, source: &str, tag: u64) -> Result<Option<Vec<(Strin
     let serial = SERIAL.fetch_add(1, std::sync::atomic::Ordering::Relaxed);
     let file = format!("{dir}/qv-cli-{}-{tag:016x}-{serial}.qx", std::process::id());
     let mut routes = Vec::new();
-    let shape = |r: (bool, String, String)| if r.0 { Ok(strip_fn_indices(&r.1)) } else { Err(format!("exit status != 0; stderr: {}", truncate(&r.2, 300))) };
+    let shape = |r: (bool, String, String)| if r.0 { Ok(strip_fn_indices(&r.1)) } else { Err(truncate(&r.2, 300)) };
     let Some(direct) = quiv(bin, &["run", "-e", source], None)? else { return Ok(None) };
     routes.push(("quiv run -e".to_string(), shape(direct)));
     let Some(comp) = quiv(bin, &["compile", "-e", source, "-o", &file], None)? else { return Ok(None) };
@@ -353,7 +377,7 @@ pub fn cli_routes(bin: &str, source: &str, tag: u64) -> Result<Option<Vec<(Strin
         };
         routes.push(("quiv compile -o f.qx; quiv run f.qx".to_string(), shape(ran)));
     } else {
-        routes.push(("quiv compile -o f.qx".to_string(), Err(format!("exit status != 0; stderr: {}", truncate(&comp.2, 300)))));
+        routes.push(("quiv compile -o f.qx".to_string(), Err(truncate(&comp.2, 300))));
     }
     let _ = std::fs::remove_file(&file);
     let Some(piped) = quiv(bin, &["compile", "-e", source], None)? else { return Ok(None) };
@@ -361,7 +385,7 @@ pub fn cli_routes(bin: &str, source: &str, tag: u64) -> Result<Option<Vec<(Strin
         let Some(ran) = quiv(bin, &["run"], Some(piped.1.as_bytes()))? else { return Ok(None) };
         routes.push(("quiv compile | quiv run".to_string(), shape(ran)));
     } else {
-        routes.push(("quiv compile".to_string(), Err(format!("exit status != 0; stderr: {}", truncate(&piped.2, 300)))));
+        routes.push(("quiv compile".to_string(), Err(truncate(&piped.2, 300))));
     }
     Ok(Some(routes))
 }
